@@ -103,6 +103,9 @@ pub struct Model {
 
 struct Shared {
     reinsert: bool,
+    replace: bool,
+    /// stream objects the queue is expected to drop because a newer one took their key
+    expected_drops: Vec<u8>,
     model: Model,
     wakers: Vec<Option<Waker>>,
     last_popped: Option<usize>,
@@ -138,6 +141,9 @@ pub struct Config {
     pub coop_yield: bool,
     /// a key whose stream is gone (ended or removed) may be inserted once more with a fresh stream
     pub reinsert: bool,
+    /// a key whose stream is still stored (idle, with items, or with an end nobody has seen yet) may be inserted once
+    /// more: the new stream REPLACES the old one (a peer connecting again under an identity that is still registered)
+    pub replace: bool,
 }
 
 pub struct SStream {
@@ -206,7 +212,12 @@ impl Stream for SStream {
 impl Drop for SStream {
     fn drop(&mut self) {
         if let Ok(mut g) = self.sh.lock() {
-            g.model.s[self.id].dropped = true;
+            if g.expected_drops[self.id] > 0 {
+                // the stream that was replaced under its key: its going away says nothing about the current one
+                g.expected_drops[self.id] -= 1;
+            } else {
+                g.model.s[self.id].dropped = true;
+            }
         }
     }
 }
@@ -238,6 +249,7 @@ fn apply_simple(sh: &Arc<Mutex<Shared>>, handle: &FairQueueHandle<SStream, usize
             let ok = {
                 let mut g = sh.lock().unwrap();
                 let reinsert = g.reinsert;
+                let g = &mut *g;
                 let m = &mut g.model.s[i];
                 if !m.inserted {
                     m.inserted = true;
@@ -253,6 +265,20 @@ fn apply_simple(sh: &Arc<Mutex<Shared>>, handle: &FairQueueHandle<SStream, usize
                     m.waker_ticket = None;
                     m.waiting = None;
                     m.avail = m.consumed;
+                    true
+                } else if g.replace && !g.model.s[i].dropped && g.model.s[i].life < 1 {
+                    // the key is taken over by a fresh stream while the old one is still stored: what the old one had not
+                    // handed out is gone with it, and so is the waker it had registered
+                    let m = &mut g.model.s[i];
+                    m.life += 1;
+                    m.prev_life_removed_after_end = false;
+                    m.closed = false;
+                    m.finished = false;
+                    m.waker_ticket = None;
+                    m.waiting = None;
+                    m.avail = m.consumed;
+                    g.expected_drops[i] += 1;
+                    g.wakers[i] = None;
                     true
                 } else {
                     false
@@ -397,6 +423,8 @@ impl Sim {
         }
         let sh = Arc::new(Mutex::new(Shared {
             reinsert: cfg.reinsert,
+            replace: cfg.replace,
+            expected_drops: vec![0; cfg.k],
             model: Model {
                 s,
                 last: LastPoll::Never,
@@ -747,7 +775,7 @@ pub fn enabled(cfg: &Config, m: &Model, plain: (u8, u8)) -> Vec<Ev> {
     for i in 0..cfg.k {
         let s = &m.s[i];
         let i8 = i as u8;
-        if !s.inserted || (cfg.reinsert && s.dropped && s.life < 1) {
+        if !s.inserted || (cfg.reinsert && s.dropped && s.life < 1) || (cfg.replace && s.inserted && !s.dropped && s.life < 1) {
             v.push(Ev::Insert(i8));
         }
         // (nothing arrives any more for a key whose stream has legitimately gone: ended, or removed)
@@ -1043,7 +1071,7 @@ pub fn hist_json(h: &[Ev]) -> Value {
 pub fn cfg_json(c: &Config) -> Value {
     json!({"name": c.name, "k": c.k, "items": c.items, "preload": c.preload, "allow_remove": c.allow_remove, "allow_close": c.allow_close,
            "windows": c.windows, "window_remove_close": c.window_remove_close, "max_depth": c.max_depth, "max_states": c.max_states,
-           "fairness": c.fairness, "fair_bound": c.fair_bound, "block_on_no_clients": c.block_on_no_clients, "coop_yield": c.coop_yield, "reinsert": c.reinsert})
+           "fairness": c.fairness, "fair_bound": c.fair_bound, "block_on_no_clients": c.block_on_no_clients, "coop_yield": c.coop_yield, "reinsert": c.reinsert, "replace": c.replace})
 }
 
 pub fn cfg_from_json(v: &Value) -> Option<Config> {
@@ -1064,6 +1092,7 @@ pub fn cfg_from_json(v: &Value) -> Option<Config> {
         block_on_no_clients: v["block_on_no_clients"].as_bool()?,
         coop_yield: v["coop_yield"].as_bool().unwrap_or(false),
         reinsert: v["reinsert"].as_bool().unwrap_or(false),
+        replace: v["replace"].as_bool().unwrap_or(false),
     })
 }
 
@@ -1194,6 +1223,7 @@ pub fn scale_family(ck: &mut zvcore::evidence::Check, thorough: bool, relevant: 
             block_on_no_clients: true,
             coop_yield: false,
             reinsert: false,
+            replace: true,
         };
         let all: Vec<Ev> = (0..k).map(|i| Ev::Insert(i as u8)).collect();
         let mut picks: Vec<usize> = vec![0, 1, k / 2, 30, 31, 32, 33, 63, 64, 65, k - 2, k - 1].into_iter().filter(|&j| j < k).collect();
@@ -1212,6 +1242,11 @@ pub fn scale_family(ck: &mut zvcore::evidence::Check, thorough: bool, relevant: 
             menu.push(all.iter().copied().chain([Ev::Poll, Ev::Close(j8)]).collect());
             // a stream is removed while the receiver is parked, then another gets an item
             menu.push(all.iter().copied().chain([Ev::Poll, Ev::Remove(j8), Ev::Arrive(((j + 1) % k) as u8)]).collect());
+            // the key is taken over by a fresh stream while the receiver is parked on the old, idle one; the new one gets an item
+            menu.push(all.iter().copied().chain([Ev::Poll, Ev::Insert(j8), Ev::Arrive(j8)]).collect());
+            menu.push(all.iter().copied().chain([Ev::Poll, Ev::Insert(j8), Ev::Poll, Ev::Arrive(j8)]).collect());
+            // ... or on one whose end nobody has seen yet
+            menu.push(all.iter().copied().chain([Ev::Poll, Ev::Close(j8), Ev::Insert(j8), Ev::Arrive(j8)]).collect());
             // the streams join while the receiver is already parked on the ones before them
             menu.push((0..j).map(|i| Ev::Insert(i as u8)).chain([Ev::Poll]).chain((j..k).map(|i| Ev::Insert(i as u8))).chain([Ev::Poll, Ev::Arrive(j8), Ev::Arrive((k - 1) as u8)]).collect());
         }
@@ -1236,7 +1271,7 @@ pub fn scale_family(ck: &mut zvcore::evidence::Check, thorough: bool, relevant: 
                 if relevant(&class) {
                     ck.finding(
                         format!("scale/{}", class),
-                        format!("fair queue with {} streams: {} — history: insert all {}; {}", k, msg, k, h.iter().filter(|e| !matches!(e, Ev::Insert(_))).map(|e| e.show()).collect::<Vec<_>>().join(" ; ")),
+                        format!("fair queue with {} streams: {} — history: the first inserts; {}", k, msg, h.iter().skip_while(|e| matches!(e, Ev::Insert(_))).map(|e| e.show()).collect::<Vec<_>>().join(" ; ")),
                         json!({"engine":"E2","config": cfg_json(&cfg), "history": hist_json(&h)}),
                     );
                 } else {
@@ -1270,11 +1305,14 @@ pub fn general_configs(thorough: bool) -> Vec<Config> {
         block_on_no_clients: true,
         coop_yield: true,
         reinsert: false,
+        replace: false,
     };
     let mut v = vec![
         Config { name: "k2-items2,2-remove-close-win1".into(), ..base.clone() },
         // a key whose stream has ended or was removed comes back once with a fresh stream (a peer reconnecting under its identity)
         Config { name: "k2-items3,2-remove-close-reinsert-win0".into(), items: vec![3, 2], windows: 0, coop_yield: false, reinsert: true, ..base.clone() },
+        // a key is taken over by a fresh stream while its old stream is still stored (a second connection under an identity still registered)
+        Config { name: "k2-items3,2-remove-close-replace-win0".into(), items: vec![3, 2], windows: 0, coop_yield: false, replace: true, ..base.clone() },
         Config { name: "k3-items1,1,1-remove-close-win1".into(), k: 3, items: vec![1, 1, 1], preload: vec![0, 0, 0], ..base.clone() },
         Config { name: "k3-items2,1,1-close-win1".into(), k: 3, items: vec![2, 1, 1], preload: vec![0, 0, 0], allow_remove: false, ..base.clone() },
         Config { name: "k2-items2,1-win2".into(), k: 2, items: vec![2, 1], windows: 2, allow_remove: false, ..base.clone() },
@@ -1305,6 +1343,7 @@ pub fn fairness_configs(thorough: bool) -> Vec<Config> {
         block_on_no_clients: true,
         coop_yield: false,
         reinsert: false,
+        replace: false,
     };
     let mut v = vec![
         Config { name: "fair-n2-busy5".into(), ..base.clone() },
